@@ -244,9 +244,17 @@ func (c *channelCacheImpl) AddToCache(ctx context.Context, change *LogEntry) []c
 			channelID := channels.NewID(channelName, change.CollectionID)
 			channelCache, ok := c.getActiveChannelCache(ctx, channelID)
 			if ok {
-				channelCache.addToCache(ctx, change, removal != nil)
+				isRemoval := removal != nil
+				channelCache.addToCache(ctx, change, isRemoval)
 				if change.Skipped {
-					channelCache.AddLateSequence(change)
+					// The late sequence feed must carry the same entry as the cache: a removal from this channel stays a removal.
+					lateEntry := change
+					if isRemoval {
+						removalChange := *change
+						removalChange.Flags |= channels.Removed
+						lateEntry = &removalChange
+					}
+					channelCache.AddLateSequence(lateEntry)
 				}
 			}
 			// Need to notify even if channel isn't active, for case where number of connected changes channels exceeds cache capacity
